@@ -1,5 +1,6 @@
 """C02 - the Verilog parser yields the circuit the netlist denotes."""
 import random
+import zlib
 
 from rv.gen import netlists as N
 from rv.oracle import sim
@@ -11,8 +12,8 @@ RULE = (
     "constants), continuous assigns over ~ ! & | ^ ~^ ^~ with a top-level ?:, parentheses omitted wherever the grammar's precedence makes them redundant (p=1/2) "
     "and added redundantly (p=1/4), 1'b0/1'b1/1'h0/1'h1, named-port blackbox instances with connected / .p() / omitted pins and constant pins, shuffled statements "
     "(use before definition), repeated sub-expressions, // and /* */ comments, random whitespace, escaped identifiers, nets named like the parser's temporaries "
-    "(and_a_b, not_x, mux_o_.., tie_0); the AST's own evaluator gives every net for ALL valuations of inputs and blackbox outputs and is compared with the reference "
-    "simulation of the returned circuit, plus io, blackbox registry, pin nets, well-formedness; negative cases (port list != declarations, positional blackbox ports, "
+    "(and_a_b, not_x, mux_o_.., tie_0), one operator chained over 17..30 operands, net names of 60..100 characters, bare line breaks as separators, blackbox definitions given as list / tuple / set / dict view; the AST's own evaluator gives every net for ALL valuations of inputs and blackbox outputs and is compared with the reference "
+    "simulation of the returned circuit, plus io, blackbox registry, pin nets, well-formedness; negative cases (port list != declarations incl. same count with one name different, positional blackbox ports, "
     "named primitive ports, unknown module) must raise. non-trivial = >=2 statements; distinct = text"
 )
 BUDGET = {
@@ -22,7 +23,7 @@ BUDGET = {
 ANCHORS = ["io:verilog_to_circuit", "parsing.verilog:parse_verilog_netlist", "parsing.verilog:_VerilogCircuitGraphTransformer.module", "parsing.verilog:_VerilogCircuitGraphTransformer.assignment", "parsing.verilog:_VerilogCircuitGraphTransformer.ternary", "parsing.verilog:_VerilogCircuitGraphTransformer.module_instantiation"]
 MUST_CALL = ["io:verilog_to_circuit", "parsing.verilog:parse_verilog_netlist"]
 
-NEG = ["extra_port", "missing_port_input", "missing_port_output", "positional_bb", "named_prim", "unknown_module", "wire_only_port"]
+NEG = ["extra_port", "missing_port_input", "missing_port_output", "positional_bb", "named_prim", "unknown_module", "wire_only_port", "port_renamed_input", "port_renamed_output"]
 
 
 def gen(rng, ctx):
@@ -64,6 +65,11 @@ def check(case, ctx):
     nl = case["nl"]
     text = case["text"]
     bbs = [cg.BlackBox(t, list(d["inputs"]), list(d["outputs"])) for t, d in sorted(nl["bbdefs"].items())]
+    if bbs:
+        # "seq of BlackBox": the same definitions in another container
+        rep = ["list", "list", "tuple", "set", "dictvalues"][zlib.crc32(text.encode()) % 5]
+        bbs = {"list": list, "tuple": tuple, "set": set, "dictvalues": lambda x: {b.name: b for b in x}.values()}[rep](bbs)
+        ctx.count(f"blackboxes_as:{rep}")
     for k, v in case["stats"].items():
         ctx.count(f"expr:{k}", v)
     mode = case.get("name_mode", "exact")
@@ -195,6 +201,6 @@ def gates(counters, table, tier):
     for op in ("and", "or", "xor", "xnor", "not"):
         if counters.get(f"expr:{op}", 0) < 50:
             out.append(f"operator {op} generated {counters.get(f'expr:{op}', 0)} times")
-    need = ["decoy_module_after", "decoy_module_before", "infer_module_name", "wrong_module_name", "expr:tern", "expr:repeated_subexpr", "multi_instance_statement", "pin:unconnected", "pin:omitted", "pin:net", "line_comments", "block_comments", "escaped_names", "lookalike_names"] + [f"neg:{n}" for n in NEG]
+    need = ["decoy_module_after", "decoy_module_before", "infer_module_name", "wrong_module_name", "expr:tern", "expr:repeated_subexpr", "multi_instance_statement", "pin:unconnected", "pin:omitted", "pin:net", "line_comments", "block_comments", "escaped_names", "lookalike_names", "expr:wide_chain", "expr:long_names", "blackboxes_as:tuple", "blackboxes_as:set"] + [f"neg:{n}" for n in NEG]
     out += [f"{k} seen {counters.get(k, 0)} times" for k in need if counters.get(k, 0) < 3]
     return out
